@@ -471,7 +471,8 @@ def main(tier, seed):
     # --- streaming: value, one space, label; 8-bit reps print digits
     ssrc = os.path.join(wd, "stream.cc")
     # every rep at its limits as well (a streamed value must be the stored number: uint32_t above INT_MAX, int8_t as a number, ...)
-    rv = [("int8_t", "65", "65"), ("int8_t", "-128", "-128"), ("int8_t", "127", "127"), ("uint8_t", "200", "200"), ("uint8_t", "255", "255"),
+    rv = [("char", "65", "65"), ("char", "48", "48"), ("signed char", "-5", "-5"), ("unsigned char", "200", "200"),   # plain char is a third 8-bit type
+          ("int8_t", "65", "65"), ("int8_t", "-128", "-128"), ("int8_t", "127", "127"), ("uint8_t", "200", "200"), ("uint8_t", "255", "255"),
           ("int16_t", "-7", "-7"), ("int16_t", "-32768", "-32768"), ("int16_t", "32767", "32767"), ("uint16_t", "7", "7"), ("uint16_t", "65535", "65535"),
           ("int32_t", "-5", "-5"), ("int32_t", "(-2147483647 - 1)", "-2147483648"), ("int32_t", "2147483647", "2147483647"),
           ("uint32_t", "5", "5"), ("uint32_t", "2147483648u", "2147483648"), ("uint32_t", "4000000000u", "4000000000"), ("uint32_t", "4294967295u", "4294967295"),
